@@ -244,9 +244,43 @@ struct GenState {
     pts: Vec<String>,
     fns: Vec<String>,
     pairs: Vec<String>,
+    /// nilary functions (for `&n ^~`)
+    nilary: Vec<String>,
+    /// modules an ACCEPTED step has imported so far
+    seen_modules: Vec<&'static str>,
+    /// modules whose first import in the session sat in a compile-REJECTED line
+    poisoned: Vec<&'static str>,
+    /// modules this session draws from (std modules are expensive to compile: only every fifth session)
+    mods: Vec<&'static str>,
     last_is_int: bool,
     k: usize,
     feats: Vec<&'static str>,
+}
+
+const MODS: [&str; 6] = ["num", "list", "str", "int", "m", "m2"];
+
+/// An accepted step that uses module `m` and binds `v`; returns (source, binds an int).
+fn use_module(m: &str, v: &str, a: &str, b: &str, k: u64) -> (String, bool) {
+    match m {
+        "num" => (format!("{v} = [{a}, {b}] %num.add"), true),
+        "list" => (format!("{v} = %list.new [~, {a}] %list.prepend"), false),
+        "str" => (format!("{v} = \"ab{k}\" %str.length"), true),
+        "int" => (format!("{v} = [{a}, {b}] %int.and"), true),
+        "m2" => (format!("{v} = {a} %m2.g"), true),
+        _ => (format!("{v} = [%m.a, {a}] %m.add"), true),
+    }
+}
+
+/// A line the COMPILER rejects after it has compiled an import of module `m`.
+fn reject_with_module(m: &str, a: &str) -> String {
+    match m {
+        "num" => format!("[{a}, 1] %num.add [~, missing_zz] %num.mul"),
+        "list" => format!("[{a}, %list.new] nosuch_zz"),
+        "str" => "\"q\" %str.length nosuch_zz".to_string(),
+        "int" => format!("[{a}, 2] %int.and nosuch_zz"),
+        "m2" => format!("[{a} %m2.g, missing_zz] __integer_add__"),
+        _ => format!("[{a} %m.f, missing_zz] __integer_add__"),
+    }
 }
 
 fn gen_step(r: &mut Rng, g: &mut GenState) -> Step {
@@ -260,7 +294,7 @@ fn gen_step(r: &mut Rng, g: &mut GenState) -> Step {
         g.last_is_int = false;
         return Step::Ok(format!("{v} = {}", r.range(1, 50)));
     }
-    match r.below(17) {
+    match r.below(24) {
         0 => {
             let v = fresh(g, "a");
             g.ints.push(v.clone());
@@ -388,7 +422,61 @@ fn gen_step(r: &mut Rng, g: &mut GenState) -> Step {
             g.ints.push(v);
             g.last_is_int = false;
             g.feats.push("import");
+            if !g.seen_modules.contains(&"m") {
+                g.seen_modules.push("m");
+            }
             Step::Ok(s)
+        }
+        17 | 18 => {
+            // use of a module (std or in-memory); prefer one whose first import was in a rejected line
+            let m: &'static str = if !g.poisoned.is_empty() && r.chance(3, 4) { *r.pick(&g.poisoned) } else { *r.pick(&g.mods) };
+            let v = fresh(g, "a");
+            let (src, is_int) = use_module(m, &v, &r.pick(&g.ints).clone(), &r.pick(&g.ints).clone(), r.below(9));
+            if is_int {
+                g.ints.push(v);
+            }
+            if g.poisoned.contains(&m) {
+                g.feats.push("import-after-rejected-first-import");
+            }
+            if !g.seen_modules.contains(&m) {
+                g.seen_modules.push(m);
+            }
+            g.last_is_int = false;
+            g.feats.push("import-module");
+            Step::Ok(src)
+        }
+        19 | 20 => {
+            // a compile-rejected line that contains an import — preferably the session's FIRST import of it
+            let fresh_mods: Vec<&'static str> = g.mods.iter().copied().filter(|m| !g.seen_modules.contains(m) && !g.poisoned.contains(m)).collect();
+            let m: &'static str = if !fresh_mods.is_empty() && r.chance(4, 5) { *r.pick(&fresh_mods) } else { *r.pick(&g.mods) };
+            if !g.seen_modules.contains(&m) {
+                g.feats.push("rejected-compile-first-import");
+                if !g.poisoned.contains(&m) {
+                    g.poisoned.push(m);
+                }
+            } else {
+                g.feats.push("rejected-compile-with-import");
+            }
+            Step::BadCompile(reject_with_module(m, &r.pick(&g.ints).clone()))
+        }
+        21 if !g.fns.is_empty() => {
+            // a named tail call OUTSIDE any function: must behave like an ordinary call (F50)
+            g.last_is_int = true;
+            g.feats.push("top-level-tail-call");
+            Step::Ok(format!("{} ^{}", r.pick(&g.ints), r.pick(&g.fns)))
+        }
+        22 => {
+            let v = fresh(g, "n");
+            let s = format!("{v} = #{{ [{}, {}] __integer_add__ }}", r.pick(&g.ints), r.pick(&g.ints));
+            g.nilary.push(v);
+            g.last_is_int = false;
+            g.feats.push("bind-nilary");
+            Step::Ok(s)
+        }
+        23 if !g.nilary.is_empty() => {
+            g.last_is_int = true;
+            g.feats.push("top-level-tail-call-ripple");
+            Step::Ok(format!("&{} ^~", r.pick(&g.nilary)))
         }
         15 if r.chance(1, 2) => {
             // a test on the flowing previous result
@@ -418,9 +506,22 @@ fn gen_step(r: &mut Rng, g: &mut GenState) -> Step {
 
 const MODULE_M: &str = "m_a = 7,\nm_f = #'int { [~, m_a] __integer_multiply__ },\n[a: m_a, f: &m_f, add: &__integer_add__]";
 
+const MODULE_M2: &str = "k = 3,\ng = #'int { [[~, k] __integer_add__, k] __integer_multiply__ },\n[k: k, g: &g]";
+
 // ---- one session -----------------------------------------------------------------------------------
 
 fn violation(ev: &mut Ev, kind: &str, what: String, replay: serde_json::Value, found: bool) {
+    // F50 (fixed 8f2fb45): a top-level `^f` truncated the persistent frame's locals; everything that
+    // goes wrong with locals / variables / the worker at or after such a line gets that signature
+    let tail = TAIL_SEEN.with(|t| t.get())
+        && ["worker-fault", "line-fails-only-in-session", "variable-values-differ", "untouched-variable-changed", "bindings-differ-from-model",
+            "locals-differ-from-model", "line-assumption-violated", "compile-rejected-not-compacted", "rejected-line-changed-variables",
+            "twin-session-differs"]
+            .contains(&kind);
+    if tail {
+        ev.violation("repl=top-level-tail-call-wipes-session-locals", &what, replay, found);
+        return;
+    }
     ev.violation(&format!("repl kind={kind}"), &what, replay, found);
     if kind.starts_with("previous-result-type-lost") {
         DIVERGED.with(|d| d.set(true));
@@ -428,6 +529,8 @@ fn violation(ev: &mut Ev, kind: &str, what: String, replay: serde_json::Value, f
 }
 
 thread_local! {
+    /// a top-level tail call (`x ^f`, `&n ^~`) has been submitted in the current session
+    static TAIL_SEEN: std::cell::Cell<bool> = const { std::cell::Cell::new(false) };
     /// the current session has diverged from its one-program form through the known finding F-C11-1:
     /// later lines compute with a different previous result, comparing them further is meaningless
     static DIVERGED: std::cell::Cell<bool> = const { std::cell::Cell::new(false) };
@@ -435,7 +538,7 @@ thread_local! {
 
 fn run_session(ev: &mut Ev, model: &mut Model, si: u64, seed: u64) {
     let mut r = Rng::for_case(seed, si);
-    let mut g = GenState { ints: vec![], pts: vec![], fns: vec![], pairs: vec![], last_is_int: false, k: 0, feats: vec![] };
+    let mut g = GenState { ints: vec![], pts: vec![], fns: vec![], pairs: vec![], nilary: vec![], seen_modules: vec![], poisoned: vec![], mods: if r.chance(1, 5) { MODS.to_vec() } else { vec!["m", "m2"] }, last_is_int: false, k: 0, feats: vec![] };
     let n_steps = 3 + r.usize(10);
     let mut steps: Vec<Step> = vec![];
     for _ in 0..n_steps {
@@ -474,8 +577,10 @@ fn run_session(ev: &mut Ev, model: &mut Model, si: u64, seed: u64) {
 /// Run a fixed list of lines as one session (generated or from corpus/C11).
 fn run_lines(ev: &mut Ev, model: &mut Model, si: u64, lines: Vec<Step>, r: &mut Rng) {
     DIVERGED.with(|d| d.set(false));
+    TAIL_SEEN.with(|t| t.set(false));
     let mut modules = HashMap::new();
     modules.insert(vec!["m".to_string()], MODULE_M.to_string());
+    modules.insert(vec!["m2".to_string()], MODULE_M2.to_string());
     let workers = 1 + r.usize(2);
     let random_schedule = r.chance(1, 2);
     let mut sim = Sim::new(workers, None, qverif::run::builtins(), true).with_repl(modules.clone());
@@ -487,6 +592,9 @@ fn run_lines(ev: &mut Ev, model: &mut Model, si: u64, lines: Vec<Step>, r: &mut 
     // a type-definition-only line was accepted since the last line that produced a value (known finding:
     // such a line overwrites the REPL's type of the previous result with nil)
     let mut alias_since_value = false;
+    // (line, result) of every accepted line and whether a compile-rejected line was seen — for the twin session
+    let mut history: Vec<(String, LineResult)> = vec![];
+    let mut saw_compile_rejected = false;
     let mut prev = observe(&mut sim);
     let mut transcript: Vec<serde_json::Value> = vec![];
     let replay = |lines: &Vec<Step>, transcript: &Vec<serde_json::Value>| json!({"lines": lines.iter().map(|l| format!("{l:?}")).collect::<Vec<_>>(), "workers": workers, "random_schedule": random_schedule, "transcript": transcript});
@@ -495,8 +603,20 @@ fn run_lines(ev: &mut Ev, model: &mut Model, si: u64, lines: Vec<Step>, r: &mut 
         let src = match line {
             Step::Ok(s) | Step::Alias(s) | Step::BadParse(s) | Step::BadCompile(s) => s.clone(),
         };
+        if src.contains(" ^") {
+            TAIL_SEEN.with(|t| t.set(true));
+        }
         let res = submit_line(&mut sim, &src, if random_schedule { Some(&mut *r) } else { None });
         let obs = observe(&mut sim);
+        if !sim.faults.is_empty() {
+            let f = sim.faults.iter().map(|(i, c, m)| format!("{i}:{c}:{}", m.chars().take(120).collect::<String>())).collect::<Vec<_>>();
+            transcript.push(json!({"line": src, "result": format!("{res:?}"), "faults": f}));
+            violation(ev, "worker-fault",
+                format!("session {si} line {li} `{src}`: a worker / environment step returned an error or panicked: {}", f.join(" | ")),
+                replay(&lines, &transcript), true);
+            ev.case(&(si, "fault"), true);
+            return;
+        }
         transcript.push(json!({"line": src, "result": format!("{res:?}"), "order": obs.order, "index": obs.index, "values": obs.value, "locals": obs.locals}));
         ev.hit(&format!(
             "result:{}",
@@ -551,6 +671,9 @@ fn run_lines(ev: &mut Ev, model: &mut Model, si: u64, lines: Vec<Step>, r: &mut 
                             replay(&lines, &transcript), false);
                     }
                 }
+                if matches!(res, LineResult::CompileError(_)) {
+                    saw_compile_rejected = true;
+                }
                 ev.hit("checked:rejected-noop");
             }
             (_, LineResult::NoCode) => {
@@ -561,7 +684,23 @@ fn run_lines(ev: &mut Ev, model: &mut Model, si: u64, lines: Vec<Step>, r: &mut 
                 }
                 compare_with_model(ev, si, li, &src, &model_ans, &obs, &lines, &transcript, &replay);
                 accepted.push(src.clone());
+                history.push((src.clone(), res.clone()));
                 alias_since_value = true;
+                // the variables, as the ONE program sees them after the same steps
+                if !obs.order.is_empty() && accepted.iter().any(|a| !a.starts_with('\'')) {
+                    let refs: Vec<String> = obs.order.iter().map(|n| format!("&{n}")).collect();
+                    let all = eval_one(&format!("{},\n[{}, 0]", join_program(&accepted), refs.join(", ")), &modules);
+                    let expect = format!(
+                        "t(_;{},_=i0)",
+                        obs.order.iter().map(|n| format!("_={}", obs.value.get(n).cloned().unwrap_or_default())).collect::<Vec<_>>().join(",")
+                    );
+                    if all != LineResult::Value(expect) {
+                        violation(ev, "variable-values-differ",
+                            format!("session {si} line {li} `{src}` (type definitions only): REPL variables {:?} but one program gives {all:?}", obs.value),
+                            replay(&lines, &transcript), true);
+                    }
+                    ev.hit("checked:variables-vs-one-program-after-type-line");
+                }
             }
             (_, LineResult::Value(v)) => {
                 if !matches!(line, Step::Ok(_)) {
@@ -569,6 +708,7 @@ fn run_lines(ev: &mut Ev, model: &mut Model, si: u64, lines: Vec<Step>, r: &mut 
                 }
                 let after_alias = alias_since_value;
                 alias_since_value = false;
+                history.push((src.clone(), res.clone()));
                 accepted.push(src.clone());
                 // ---- model ----
                 let n_before = prev.order.len(); // compacted length = number of bindings
@@ -638,6 +778,30 @@ fn run_lines(ev: &mut Ev, model: &mut Model, si: u64, lines: Vec<Step>, r: &mut 
             ev.case(&(si, "diverged"), true);
             return;
         }
+    }
+    // ---- twin session: the same accepted lines in a session that never saw the rejected ones ----
+    if saw_compile_rejected && !history.is_empty() {
+        let mut twin = Sim::new(1, None, qverif::run::builtins(), false).with_repl(modules.clone());
+        let mut differs = None;
+        for (k, (src, expect)) in history.iter().enumerate() {
+            let got = submit_line(&mut twin, src, None);
+            if &got != expect {
+                differs = Some(format!("line {k} `{src}`: with rejected lines in between {expect:?}, without them {got:?}"));
+                break;
+            }
+        }
+        if differs.is_none() {
+            let t = observe(&mut twin);
+            if t.value != prev.value || t.order != prev.order {
+                differs = Some(format!("final variables: with rejected lines {:?}, without them {:?}", prev.value, t.value));
+            }
+        }
+        if let Some(d) = differs {
+            violation(ev, "twin-session-differs",
+                format!("session {si}: a rejected line was not a no-op — {d}"),
+                replay(&lines, &transcript), true);
+        }
+        ev.hit("checked:twin-session-without-rejected-lines");
     }
     ev.case(&lines.iter().map(|l| format!("{l:?}")).collect::<Vec<_>>(), accepted.len() >= 2);
     ev.sample_sparse(si, 41, || json!({"session": si, "transcript": transcript}));
@@ -766,7 +930,7 @@ fn main() {
             ev.hit("corpus:session");
         }
     }
-    let n = opts.tier.pick(4000u64, 120_000u64);
+    let n = opts.tier.pick(2500u64, 60_000u64);
     for si in 0..n {
         run_session(&mut ev, &mut model, si, opts.seed ^ 0xC11);
     }
